@@ -2,7 +2,18 @@
 gated schedules of the real netpoll.Poller replayed from the TLC state graph (channel C), both epoll variants."""
 import vlib
 
-SCRIPTS = {"Poller_replayQ.cfg": '<<<<"H","H">>,<<"L">>>>', "Poller_replay2.cfg": '<<<<"H","L">>,<<"L","H">>>>'}
+SCRIPTS = {"Poller_replayQ.cfg": '<<<<"H","H">>,<<"L">>>>', "Poller_replay2.cfg": '<<<<"H","L">>,<<"L","H">>>>',
+           "Poller_replaySat.cfg": '<<<<"H","H">>,<<"L">>>>', "Poller_replayS.cfg": '<<<<"H","LS","L">>,<<"H">>>>'}
+
+
+def replay(ctx, cfg, maxe, props=None):
+    """Every labelled edge of the TLC graph of one Poller configuration executed as a gated schedule of the real poller."""
+    g = vlib.tlc_model_check(ctx, "MCPoller", cfg, dump="g", timeout=900)
+    for tags in ("verif", "verif poll_opt"):
+        rep = vlib.go_harness(ctx, "pkg/netpoll", "TestVerifPollerCover", name="cover-%s-%s" % (cfg[7:-4], tags.replace(" ", "+")), tags=tags,
+                              env={"VERIF_GRAPH": g["dot"], "VERIF_SCRIPT": SCRIPTS[cfg], "VERIF_THRESH": 1, "VERIF_MAX_EDGES": maxe,
+                                   "VERIF_SAT": 1 if "Sat" in cfg else 0}, timeout=1500)
+        vlib.absorb(ctx, rep, "cover")
 
 
 def run(ctx):
@@ -15,13 +26,12 @@ def run(ctx):
     vlib.tlc_model_check(ctx, "Wakeup", "Wakeup.cfg", timeout=300)
     vlib.apalache_inductive(ctx, "Wakeup", cinit="CInit", init="Init", ind_init="IndInit", ind_inv="IndInv", goal="NoLostWakeup")
     vlib.tlaps_prove(ctx, "WakeupProof", deps=("Wakeup",))
-    graphs = [("Poller_replayQ.cfg", 0)] + ([("Poller_replay2.cfg", 0 if ctx.thorough else 1500)])
+    # (Sat: the eventfd's counter starts saturated, the first write fails with EAGAIN and is retried after a read;
+    #  S: a low-priority task answers ErrEngineShutdown with another one queued behind it)
+    graphs = [("Poller_replayQ.cfg", 0), ("Poller_replay2.cfg", 0 if ctx.thorough else 1500),
+              ("Poller_replaySat.cfg", 0), ("Poller_replayS.cfg", 0)]
     for cfg, maxe in graphs:
-        g = vlib.tlc_model_check(ctx, "MCPoller", cfg, dump="g", timeout=900)
-        for tags in ("verif", "verif poll_opt"):
-            rep = vlib.go_harness(ctx, "pkg/netpoll", "TestVerifPollerCover", name="cover-%s-%s" % (cfg[7:-4], tags.replace(" ", "+")), tags=tags,
-                                  env={"VERIF_GRAPH": g["dot"], "VERIF_SCRIPT": SCRIPTS[cfg], "VERIF_THRESH": 1, "VERIF_MAX_EDGES": maxe}, timeout=1500)
-            vlib.absorb(ctx, rep, "cover")
+        replay(ctx, cfg, maxe)
     # mechanism-level non-conformance means the guarantee obtained by model checking no longer transfers to this
     # tree: escalate with 20x more gated schedules of the real code, looking for a behavioural violation
     budget = (2000 if ctx.thorough else 150) * (20 if ctx.nonconf else 1)
